@@ -4,7 +4,7 @@ set -e
 PATCH=$(readlink -f "$1"); PROP=$2; BUDGET=${3:-30}; SEED=${4:-0}
 D=/dev/shm/seedtest-$$
 rm -rf $D; mkdir -p $D; cp -r /repo/openapi_python_client $D/; find $D -name __pycache__ -prune -exec rm -rf {} + 2>/dev/null || true
-(cd $D && git apply --include="openapi_python_client/*" "$PATCH")
+python3 /verif/tools/applypkg.py "$PATCH" $D
 cd /verif
 set +e
 VERIF_REPO=$D VERIF_BUDGET_S=$BUDGET VERIF_SEED=$SEED VERIF_EVIDENCE_DIR=/dev/shm/verif-selftest-evidence VERIF_REPLAY_DIR=/dev/shm/verif-selftest-replays ./check $PROP --tier quick 2>&1 | grep -v "^KNOWN-FINDING" | cut -c1-600 | tail -12
